@@ -27,6 +27,9 @@ KINDS = {0: "dense dyadic Gram", 1: "sparse dyadic Gram", 2: "degenerate (exact 
          4: "arbitrary doubles", 5: "large sparse", 6: "least-squares form", 7: "extremely scaled (D over 1e+-6), Cholesky-based solvers only"}
 
 
+EXPECTED_CONSTANTS = {"KKT_TOL": 1e-6, "max_iter": 120, "block3_factor": 1e5}
+
+
 def dbl(u): return struct.unpack("d", struct.pack("Q", int(u)))[0]
 def bits(d): return struct.unpack("Q", struct.pack("d", float(d)))[0]
 
@@ -41,7 +44,13 @@ def read_constants(ctx):
         ctx.tie_ok = False
         ctx.broken.append({"kind": "constant extraction failed (KKT_TOL / max_iter / kkt_tolerance formula) in nnls.c"})
         return None
-    return {"KKT_TOL": float(m1.group(1)), "max_iter": int(m2.group(1)), "block3_factor": float(m3.group(1))}
+    consts = {"KKT_TOL": float(m1.group(1)), "max_iter": int(m2.group(1)), "block3_factor": float(m3.group(1))}
+    # the tolerances are part of what is claimed ("the solver's stated tolerance"): a changed constant must not silently
+    # loosen the check
+    if consts != EXPECTED_CONSTANTS:
+        ctx.tie_ok = False
+        ctx.broken.append({"kind": "solver constants changed in nnls.c; the tolerance of the check is tied to them — re-validate", "found": consts, "expected": EXPECTED_CONSTANTS})
+    return consts
 
 
 def kv(s):
@@ -131,6 +140,9 @@ def evaluate(ctx, consts, cases, impl, nref, acc, tag):
             if tr_m == tr_c: acc["b3_trace_equal"] += 1
             else:
                 acc["b3_trace_diff"] += 1
+                if kind != 2:
+                    acc["b3_trace_diff_nondegenerate"] += 1
+                    if len(acc["b3_trace_diff_samples"]) < 3: acc["b3_trace_diff_samples"].append({"model": out_of[idx], "impl": i.split("|")[1].strip(), "system": cur[:400]})
                 acc["b3_trace_diff_by_kind"][KINDS[kind]] = acc["b3_trace_diff_by_kind"].get(KINDS[kind], 0) + 1
             if o.get("walk") not in (None, "0"): acc["b3_model_walks"] += 1
             continue
@@ -167,7 +179,7 @@ def evaluate(ctx, consts, cases, impl, nref, acc, tag):
 def new_acc():
     return {"systems": 0, "evaluations": 0, "not_spd_skipped": 0, "by_solver": {}, "cap_exits": {}, "cap_nonkkt": {}, "hang_retries": 0,
             "worst_rel": {}, "distinct": set(), "b3_runs": 0, "b3_exit_mismatch": 0, "b3_trace_equal": 0, "b3_trace_diff": 0,
-            "b3_trace_diff_by_kind": {}, "b3_model_walks": 0, "block3_walk_cases": 0, "block3_boundary_cases": 0}
+            "b3_trace_diff_by_kind": {}, "b3_trace_diff_nondegenerate": 0, "b3_trace_diff_samples": [], "b3_model_walks": 0, "block3_walk_cases": 0, "block3_boundary_cases": 0}
 
 
 def run(ctx):
@@ -196,6 +208,13 @@ def run(ctx):
 
 
 def finish(ctx, acc, dist, consts):
+    # branch trace (accepted solves / boundary bindings / projected walks) of the state machine with exact solves vs the C run:
+    # exact and floating-point decisions may differ at ties (degenerate systems are excluded, isolated near-ties tolerated);
+    # a systematic difference means the model no longer describes the code
+    if acc["b3_trace_diff_nondegenerate"] > max(3, acc["b3_runs"] // 100):
+        ctx.tie_ok = False
+        ctx.broken.append({"kind": "BLOCK3 state machine branch trace differs from the C run on non-degenerate systems",
+                           "count": acc["b3_trace_diff_nondegenerate"], "runs": acc["b3_runs"], "samples": acc["b3_trace_diff_samples"]})
     ctx.coverage["evaluations"] = acc["evaluations"]
     ctx.coverage["distinct_nontrivial"] = len(acc["distinct"])
     ctx.coverage["rule"] = ("systems drawn from VERIF_SEED by harness/nnls_harness.cpp; every system is solved by each exported solver; a case is "
